@@ -43,8 +43,11 @@ def main():
         try:
             open(os.path.join(d, "lib.gdn"), "w").write("public fun pubf(): Int { privf() + 1 }\nfun privf(): Int { 41 }\n")
             bad = []
-            for call, want in (("m::pubf()", "42"), ("m::privf()", None), ("m::nosuch()", None)):
-                main = f'import "./lib.gdn" as m\nprintln(string_repr({call}))\n'
+            for call, want in (("m::pubf()", "42"), ("m::privf()", None), ("m::nosuch()", None), ("UNUSED m::privf", None)):
+                if call.startswith("UNUSED "):
+                    main = f'import "./lib.gdn" as m\nif True {{ {call[7:]} }}\nprintln("reached")\n'
+                else:
+                    main = f'import "./lib.gdn" as m\nprintln(string_repr({call}))\n'
                 open(os.path.join(d, "main.gdn"), "w").write(main)
                 import subprocess
                 r = subprocess.run([native.garden_bin(), "run", os.path.join(d, "main.gdn")], capture_output=True,
@@ -81,17 +84,18 @@ def main():
         frame = M.mk_frame(values=[sentinel, recv])
         env = M.mk_env([frame])
         I = M.mk_interp(P, ctx)
+        used = z3.Bool("value_is_used")
         symbol = Struct("Symbol", {"name": s_name, "position": Opaque("spos"), "interned_id": Opaque("iid")}, partial=True)
         recv_expr = Rc(Struct("Expression", {"position": Opaque("rpos")}, partial=True))
         expr = Rc(Struct("Expression", {"expr_": Enum("Expression_", "NamespaceAccess", [recv_expr, symbol]),
-                                        "position": Opaque("pos"), "value_is_used": True, "id": Opaque("id")}, partial=True))
+                                        "position": Opaque("pos"), "value_is_used": used, "id": Opaque("id")}, partial=True))
         st = [Enum("ExpressionState", "EvaluatedSubexpressions", [])]
         sref = Ref(lambda: st[0], lambda v: st.__setitem__(0, v))
         r = I.call_user(P.fns["eval_expr"], [env, Struct("Session", {}, partial=True), expr, sref])
         in_vals = z3.Or(*[k[i][1] == s_c for i in range(nv)]) if nv else z3.BoolVal(False)
         in_exp = z3.Or(*[e[i][1] == s_c for i in range(ne)]) if ne else z3.BoolVal(False)
         return {"I": I, "r": r, "frame": frame, "sentinel": sentinel, "recv": recv, "vals": vals, "nv": nv, "ne": ne,
-                "in_vals": in_vals, "in_exp": in_exp}
+                "in_vals": in_vals, "in_exp": in_exp, "used": used}
 
     results = explore(run)
     C.note_paths(results)
@@ -110,9 +114,13 @@ def main():
         if M.result_kind(v["r"]) == "Ok":
             n_ok += 1
             same = lambda a, b: M.value_ident(a) == M.value_ident(b)
-            shape = len(items) == 2 and items[0] is v["sentinel"] and any(same(items[1], x) for x in v["vals"])
+            pushed = len(items) == 2 and items[0] is v["sentinel"] and any(same(items[1], x) for x in v["vals"])
+            untouched = len(items) == 1 and items[0] is v["sentinel"]
+            # the access succeeds only for a public definition, whether or not its value is used; the value is
+            # pushed exactly when it is used
+            shape_ok = z3.If(v["used"], z3.BoolVal(pushed), z3.BoolVal(untouched))
             C.prove(f"path{i}/values{v['nv']}/exported{v['ne']}:value-only-if-public", r.pc,
-                    z3.And(visible, z3.BoolVal(shape)), site="namespace-access/non-public-reachable",
+                    z3.And(visible, shape_ok), site="namespace-access/non-public-reachable",
                     what="`ns::sym` yields a value although sym is not both defined and public in ns", replay=replay,
                     model_desc=lambda m, v=v: {"values": v["nv"], "exported": v["ne"], "model": str(m)[:200]})
             # and it is that symbol's own value
